@@ -328,6 +328,18 @@ Theorem C05_file_options :
 Proof. exact file_options. Qed.
 Print Assumptions C05_file_options.
 
+(* Exists and Fetch agree on every reachable state (so "leaves Exists false and Fetch
+   failing" is one statement): OCI layout, and the file store with its digestToPath /
+   name status / fallback lookup *)
+Theorem C05_exists_iff_fetch :
+  forall (H : str -> str -> str),
+  (forall s d, valid_digest (d_dg d) = true ->
+     (oci_exists s d = (None, true) <-> exists bs, oci_get s (d_dg d) = Some bs)) /\
+  (forall s name d, file_reach H s ->
+     (file_exists s name d = true <-> exists bs, file_fetch s name d = Some bs)).
+Proof. exact exists_iff_fetch. Qed.
+Print Assumptions C05_exists_iff_fetch.
+
 (* bad input never gets in, whatever the store *)
 Theorem C05_push_bad_rejected :
   forall (H : str -> str -> str) comb fuel d evs,
